@@ -142,18 +142,19 @@ func (s *vfServerStream) atHome() bool      { return s.recvCalls == s.delivered+
 // vfClientStream is the proxy-side view of a stream the proxy opened towards a Temporal cluster.
 type vfClientStream struct {
 	grpc.ClientStream
-	ctx        context.Context
-	md         metadata.MD
-	recvQ      chan vfItem
-	recvCalls  int
-	delivered  int
-	broken     bool
-	closeSent  bool
-	ended      bool // peer ended the stream (EOF queued)
-	onSend     func(*adminservice.StreamWorkflowReplicationMessagesRequest) error
-	client, sv history.ClusterShardID
-	brk        chan struct{}
-	noAutoEOF  bool // the peer does not end the stream when the proxy half-closes it
+	ctx            context.Context
+	md             metadata.MD
+	recvQ          chan vfItem
+	recvCalls      int
+	delivered      int
+	broken         bool
+	closeSent      bool
+	ended          bool // peer ended the stream (EOF queued)
+	onSend         func(*adminservice.StreamWorkflowReplicationMessagesRequest) error
+	client, sv     history.ClusterShardID
+	brk            chan struct{}
+	noAutoEOF      bool // the peer does not end the stream when the proxy half-closes it
+	blockCloseSend bool // CloseSend blocks until the stream's context ends
 }
 
 func (c *vfClientStream) breakNow() {
@@ -197,6 +198,11 @@ func (c *vfClientStream) Send(m *adminservice.StreamWorkflowReplicationMessagesR
 // CloseSend half-closes; a well-behaved Temporal sender then ends the stream, so the peer's EOF
 // is queued behind whatever was already delivered.
 func (c *vfClientStream) CloseSend() error {
+	if c.blockCloseSend {
+		// the half-close cannot be written (the connection is wedged): the call returns only when the stream's context ends
+		<-c.ctx.Done()
+		return c.ctx.Err()
+	}
 	if !c.closeSent {
 		c.closeSent = true
 		if !c.ended && !c.noAutoEOF {
